@@ -1,8 +1,167 @@
-(* C05 - in-memory backends agree with each other and with the documented semantics. (statements only) *)
+(* C05 - the in-memory graph backends agree with each other and with the documented semantics.
+   Statements only; every theorem is closed by `exact` of a lemma of Proofs/Refine*.v.
+
+   Models (tied to the code on every run by the lock-step streams of harness/c05.py):
+     Model/Store.v          shared store + the methods of NetworkXPropertyGraph over one nx.Graph
+     Model/StoreDisjoint.v  one nx.Graph per graph id, same methods (as the Python class inherits them)
+     Model/PGSpec.v         reference model of the documented interface: per graph id, no store, no
+                            internal ids; [abs_shared s g] / [abs_disjoint d g] = the reference graph
+                            that graph id g sees in a store.
+   [refine_scope o]  = o is one of the operations of the property's quantifier (add/delete node, add link,
+                       update/unset node and link properties singly and in bulk, whole-graph update,
+                       listings, existence/uniqueness tests, matching, delete graph) and does not REWRITE
+                       GraphID / NodeID (re-homing / renaming: outside the documented interface, C14).
+                       merge_nodes has its own theorems; import / clone are C04's.
+   [partners_exist]  = find_matching_nodes is called with a partner graph that holds nodes. *)
 From Coq Require Import List NArith Bool.
 From FIM Require Import Base.Assoc Gen.PGConst Model.Store Model.StoreDisjoint Model.PGSpec.
+From FIM Require Import Proofs.IsolationShared Proofs.RefineGuards Proofs.RefineUnique Proofs.RefineMerge
+                        Proofs.RefineSim Proofs.RefineStores Proofs.RefineWitness.
 Import ListNotations.
+Open Scope N_scope.
 
-Theorem C05_translated : gen_ok = true.
-Proof. exact eq_refl. Qed.
+(* the constants and guard placements REGENERATED from the source are the model's: NO_UNSET_PROPERTIES,
+   NETWORKX_LABEL, the Class guard of all seven mutators, the identity guard of unset_node_property,
+   add_node's class-independent existence test, the unsupported merge of the second backend *)
+Theorem C05_translated : constants_tied = true.
+Proof. exact constants_tied_true. Qed.
 Print Assumptions C05_translated.
+
+(* ---- agreement with the reference model and with each other ---- *)
+Theorem C05_shared_refines_spec : forall ops,
+  (forall o, In o ops -> refine_scope o = true) ->
+  sresults init_store ops = spec_results [] ops /\
+  forall g, abs_shared (srun ops init_store) g = sget (spec_run ops []) g.
+Proof. exact shared_refines_spec. Qed.
+Print Assumptions C05_shared_refines_spec.
+
+Theorem C05_disjoint_refines_spec : forall ops,
+  (forall o, In o ops -> refine_scope o = true) -> partners_exist [] ops = true ->
+  dresults init_dstore ops = spec_results [] ops /\
+  forall g, abs_disjoint (drun ops init_dstore) g = sget (spec_run ops []) g.
+Proof. exact disjoint_refines_spec. Qed.
+Print Assumptions C05_disjoint_refines_spec.
+
+(* same results, same exceptions, same content, step by step, for every history *)
+Theorem C05_backends_agree_partial : forall ops,
+  (forall o, In o ops -> refine_scope o = true) -> partners_exist [] ops = true ->
+  sresults init_store ops = dresults init_dstore ops /\
+  forall g, abs_shared (srun ops init_store) g = abs_disjoint (drun ops init_dstore) g.
+Proof. exact backends_agree. Qed.
+Print Assumptions C05_backends_agree_partial.
+
+(* FULL statement (false): the same without [partners_exist].  Witness: find_matching_nodes with a
+   partner that holds no node raises AssertionError on the shared store and returns an empty set on
+   the other one (known finding, proposed fix C05-1). *)
+Theorem C05_backends_agree_refuted :
+  exists ops, (forall o, In o ops -> refine_scope o = true) /\
+              results_eqb (sresults init_store ops) (dresults init_dstore ops) = false.
+Proof. exact agree_matching_absent_partner_refuted. Qed.
+Print Assumptions C05_backends_agree_refuted.
+
+(* outside the quantifier of C05 but recorded: import onto a live id (replace vs skip) and clone of
+   a graph without nodes (AttributeError vs normal return) differ between the flavours *)
+Theorem C05_agree_reimport_live_refuted :
+  exists ops, (forall o, In o ops -> in_spec_scope o = true) /\
+              results_eqb (sresults init_store ops) (dresults init_dstore ops) = false.
+Proof. exact agree_reimport_live_refuted. Qed.
+Print Assumptions C05_agree_reimport_live_refuted.
+
+Theorem C05_agree_clone_absent_source_refuted :
+  exists ops, (forall o, In o ops -> in_spec_scope o = true) /\
+              results_eqb (sresults init_store ops) (dresults init_dstore ops) = false.
+Proof. exact agree_clone_absent_source_refuted. Qed.
+Print Assumptions C05_agree_clone_absent_source_refuted.
+
+(* ---- identity properties cannot be unset, Class cannot be changed ---- *)
+Theorem C05_identity_unset_rejected : forall s g n p,
+  In p no_unset -> sstep s (OUnsetNode g n p) = (s, Err EQuery).
+Proof. exact unset_identity_shared. Qed.
+Print Assumptions C05_identity_unset_rejected.
+
+Theorem C05_identity_unset_rejected_disjoint : forall d g n p,
+  In p no_unset ->
+  snd (dstep d (OUnsetNode g n p)) = Err EQuery /\
+  forall g', dget (fst (dstep d (OUnsetNode g n p))) g' = dget d g'.
+Proof. exact unset_identity_disjoint. Qed.
+Print Assumptions C05_identity_unset_rejected_disjoint.
+
+Theorem C05_class_write_rejected : forall s o, writes_class o = true -> sstep s o = (s, Err EQuery).
+Proof. exact class_write_rejected_shared. Qed.
+Print Assumptions C05_class_write_rejected.
+
+Theorem C05_class_write_rejected_disjoint : forall d o,
+  writes_class o = true ->
+  snd (dstep d o) = Err EQuery /\ forall g', dget (fst (dstep d o)) g' = dget d g'.
+Proof. exact class_write_rejected_disjoint. Qed.
+Print Assumptions C05_class_write_rejected_disjoint.
+
+(* over ALL merge-free histories (imports, clones, failing calls, identity rewriting included): a stored
+   node never loses GraphID / NodeID / Type / Class / Name and its Class value never changes *)
+Theorem C05_identity_kept : forall pre ops,
+  merge_free ops -> evolves (sg (srun pre init_store)) (sg (srun (pre ++ ops) init_store)).
+Proof. exact identity_kept_all. Qed.
+Print Assumptions C05_identity_kept.
+
+(* FULL statement (false) once merge_nodes is allowed: a policy that needs a property the other node
+   lacks raises KeyError AFTER the contraction and after clear(): the node is left with no property at
+   all (known finding, proposed fix C05-2) *)
+Theorem C05_merge_atomic_refuted :
+  exists ops o u,
+    (forall x, In x ops -> nid_scope x = true) /\ nid_scope o = true /\
+    snd (sstep (srun ops init_store) o) = Err EKey /\
+    (exists ps, nx_node (sg (srun ops init_store)) u = Some ps /\ ahas k_graphid ps = true) /\
+    nx_node (sg (fst (sstep (srun ops init_store) o))) u = Some [].
+Proof. exact merge_atomic_refuted. Qed.
+Print Assumptions C05_merge_atomic_refuted.
+
+(* ---- a NodeID is unique within its graph whatever the class ---- *)
+(* [nid_scope]: no rewriting of GraphID / NodeID, imported graphs have unique NodeIDs, a merge policy
+   does not name GraphID / NodeID; everything else (all classes, failing calls, merges) is allowed *)
+Theorem C05_nodeid_unique : forall ops,
+  (forall o, In o ops -> nid_scope o = true) ->
+  forall g n, (length (search (sg (srun ops init_store)) [(k_nodeid, n); (k_graphid, g)]) <= 1)%nat.
+Proof. exact nodeid_unique_all. Qed.
+Print Assumptions C05_nodeid_unique.
+
+Theorem C05_nodeid_unique_disjoint : forall ops,
+  (forall o, In o ops -> nid_scope o = true) ->
+  forall g n, (length (search (dget (drun ops init_dstore) g) [(k_nodeid, n); (k_graphid, g)]) <= 1)%nat.
+Proof. exact nodeid_unique_all_disjoint. Qed.
+Print Assumptions C05_nodeid_unique_disjoint.
+
+(* ---- merge_nodes keeps every link of both nodes and applies the policy ---- *)
+Theorem C05_merge_keeps_edges_and_policy : forall G g n g2 pol G',
+  NoDup (ids G) -> s_merge G g n g2 pol = (G', Ok RUnit) ->
+  exists u v mine other,
+    find_node G g n = Some u /\ find_node G g2 n = Some v /\ u <> v /\
+    nx_node G u = Some mine /\ nx_node G v = Some other /\
+    nx_node G' v = None /\
+    (forall i, i <> u -> i <> v -> nx_node G' i = nx_node G i) /\
+    (forall y, y <> u -> y <> v -> pres G' u y = pres G u y || pres G v y) /\
+    (forall a b, a <> u -> b <> u -> a <> v -> b <> v -> nx_edge G' a b = nx_edge G a b) /\
+    exists np, nx_node G' u = Some np /\
+      forall k, aget k np = match aget k mine with
+                            | Some m => match pol with Some p => policy_spec p other k m | None => Some m end
+                            | None => None
+                            end.
+Proof. exact merge_ok_spec. Qed.
+Print Assumptions C05_merge_keeps_edges_and_policy.
+
+(* ---- non-vacuity ---- *)
+Example C05_agree_nonvacuous :
+  forallb refine_scope w_agree = true /\ partners_exist [] w_agree = true /\
+  sresults init_store w_agree =
+    [Ok RUnit; Ok RUnit; Ok RUnit; Ok RUnit; Err EQuery; Ok RUnit; Err EQuery; Ok RUnit; Ok RUnit;
+     Ok (RVals [PV 20]); Ok (RVals [PV 20; PV 21]); Ok RUnit; Err EQuery; Ok RUnit; Ok (RBool false)] /\
+  dresults init_dstore w_agree = sresults init_store w_agree.
+Proof. exact agree_nonvacuous. Qed.
+
+Example C05_merge_nonvacuous :
+  let ops := [OAddNode 10 20 30 (Some [(50, PV 60)]); OAddNode 10 21 30 None; OAddLink 10 20 40 21 None;
+              OAddNode 11 20 30 (Some [(50, PV 61)]); OAddNode 11 22 30 None; OAddLink 11 20 40 22 None] in
+  let s := srun ops init_store in
+  exists G', s_merge (sg s) 10 20 11 (Some [(50, s_combine)]) = (G', Ok RUnit) /\
+             nx_node G' 1 = Some [(k_graphid, PV 10); (k_nodeid, PV 20); (k_class, PV 30); (50, PL [PV 60; PV 61])] /\
+             nx_node G' 3 = None /\ nx_edge G' 1 2 <> None /\ nx_edge G' 1 4 <> None.
+Proof. exact merge_nonvacuous. Qed.
